@@ -122,6 +122,11 @@ func randOp(r *rand.Rand, names []string, perName int) regOp {
 	return regOp{Kind: "Clear", Svc: []any{}}
 }
 
+// walkPerm: the order in which goroutine p of history h looks the names up during the Clear burst
+func walkPerm(h, p, n int) []int {
+	return rand.New(rand.NewSource(int64(h*131 + p))).Perm(n)
+}
+
 // stress: hook-free concurrent histories; call and return are stamped with one atomic counter
 // (never wall-clock). Built with -race by the orchestrator.
 func concStress(args []string) error {
@@ -153,6 +158,30 @@ func concStress(args []string) error {
 		for p := range plans {
 			for c := 0; c < *calls; c++ {
 				switch {
+				case *profile == "clearhot":
+					// one name, no Remove at all: the writer registers instance 1, clears, registers instance 2, clears ...; all others look the name up
+					switch {
+					case p == 0 && c%2 == 0:
+						plans[p] = append(plans[p], regOp{Kind: "Registry", Svc: []any{names[0], 1 + (c/2)%2}})
+					case p == 0:
+						plans[p] = append(plans[p], regOp{Kind: "Clear", Svc: []any{}})
+					default:
+						plans[p] = append(plans[p], regOp{Kind: "Get", Name: names[0], Svc: []any{}})
+					}
+				case *profile == "walk":
+					// all names registered, then ONE Clear while every other goroutine looks all names up in a burst (its own order, no
+					// alignment inside the burst): a Clear that is not atomic over the names shows as a miss followed by a hit
+					nn := len(names)
+					switch {
+					case p == 0 && c < nn:
+						plans[p] = append(plans[p], regOp{Kind: "Registry", Svc: []any{names[c], 1}})
+					case p == 0 && c == nn:
+						plans[p] = append(plans[p], regOp{Kind: "Clear", Svc: []any{}})
+					case c < nn:
+						plans[p] = append(plans[p], regOp{Kind: "Get", Name: names[(c+p)%nn], Svc: []any{}})
+					default:
+						plans[p] = append(plans[p], regOp{Kind: "Get", Name: names[walkPerm(h, p, nn)[(c-nn)%nn]], Svc: []any{}})
+					}
 				case *profile != "hot":
 					plans[p] = append(plans[p], randOp(r, names, 2))
 				case p == 0 && c%2 == 0: // the writer: register instance 1, remove, register instance 2, remove ...
@@ -180,7 +209,7 @@ func concStress(args []string) error {
 				for c, o := range plans[p] {
 					// align the goroutines at the start of every round so that the calls really overlap
 					atomic.AddInt64(&arrived[c], 1)
-					for spin := 0; atomic.LoadInt64(&arrived[c]) < int64(*procs) && spin < 200000; spin++ {
+					for spin := 0; (*profile != "walk" || c <= len(names)) && atomic.LoadInt64(&arrived[c]) < int64(*procs) && spin < 200000; spin++ {
 						if spin%64 == 63 {
 							runtime.Gosched()
 						}
